@@ -62,8 +62,8 @@ func registerPW() {
 		Assume: []string{"crash model: process death at a callback boundary with all completed system calls durable (go-slug never syncs and claims nothing about page-cache loss)", "syscall-level faults (EIO on open/rename) are not injected: no property quantifies over them", "a short write with nil error is not a fault kind (compress/flate discards the count)"},
 		Real:   realCommon, Sim: append(pwSim, "SimReader fault plans", "fault-injecting fetcher/registry/finder peers", "porcupine poison-history model")}
 	plans["C19"] = &Plan{ID: "C19", Level: "exploration",
-		Legs:   append([]Leg{{World: "uw", Profile: "rawmut", Quick: 8000, Weight: 3}, {World: "uw", Profile: "mixed", Quick: 4000, Weight: 1}, {World: "pw", Profile: "hostile", Quick: 3000, Weight: 3}, {World: "pw", Profile: "mutate", Quick: 1200, Weight: 1}}, bwC19Legs()...),
-		Rule:   "each evaluation = one hostile scenario in a watched worker process: Unpack of tar streams with mutated header bytes (checksums repaired), truncations, garbage tails and second gzip members; Pack of trees with link cycles, directory loops reached by dereference, links to fifos, degenerate rule files; bundle opening of hostile manifests and parsing of hostile peer-supplied address strings. Oracles: no recovered panic, process does not die inside an operation, Read/Write/peer-call counts within the stated step bound, operation returns within 10 s of real time (confirmed by a solo re-run). distinct = scenario hash.",
+		Legs:   append([]Leg{{World: "uw", Profile: "rawmut", Quick: 8000, Weight: 3}, {World: "uw", Profile: "mixed", Quick: 4000, Weight: 1}, {World: "pw", Profile: "hostile", Quick: 3000, Weight: 3}, {World: "pw", Profile: "mutate", Quick: 1200, Weight: 1}, {World: "pw", Profile: "sweep", Quick: 6, Weight: 1}}, bwC19Legs()...),
+		Rule:   "each evaluation = one hostile scenario in a watched worker process: Unpack of tar streams with mutated header bytes (checksums repaired), truncations, garbage tails and second gzip members; Pack of trees with link cycles, directory loops reached by dereference, links to fifos, degenerate rule files, and with the output writer failing at every call index (the single-fault sweep of C12: an error must come back, not a hang); bundle opening of hostile manifests and parsing of hostile peer-supplied address strings. Oracles: no recovered panic, process does not die inside an operation, Read/Write/peer-call counts within the stated step bound, operation returns within 10 s of real time (confirmed by a solo re-run). distinct = scenario hash.",
 		Assume: []string{"real-time budget only for blocking open(2) and runaway recursion, which cannot be counted in simulator steps"},
 		Real:   realCommon, Sim: pwSim}
 }
